@@ -205,7 +205,18 @@ func init() {
 	registerProp(&propDef{ID: "C17", Rules: withState("C17", withC06(rulesC17)), Floor: 36,
 		Expl: "T2 field coverage generated from go/types: for every Goldilocks-typed leaf of variables.Proof (both coordinates of extension values) the canonical range check gl.Chip.RangeCheck is applied to the element itself on every path from VerifierChip.Verify, inside full-range loops over the complete field (no narrowing slice, no conditional, no early exit). That the canonical range check is a real check in every backend is C06 (included). Adding a Goldilocks field to the proof structure without extending the sweep is a violation by construction.",
 		Rule: "one obligation per leaf access path and coordinate (enumerated from the type), each discharged by a distinct call path"})
-	registerProp(&propDef{ID: "C14", Rules: withState("C14", withC06(func(cx *Ctx) []Obligation { return append(rulesC14(cx), rulesW3(cx, "C14")...) })), Floor: 26,
+	registerProp(&propDef{ID: "C14", Rules: withState("C14", withC06(func(cx *Ctx) []Obligation {
+		obs := append(rulesC14(cx), rulesW3(cx, "C14")...)
+		// the difficulty the width is computed from is the document's: every ProofOfWorkBits field of the decoded
+		// configuration is loaded from the raw field of the same name (C19's configuration-copy obligations)
+		for _, o := range ruleConfigCopy(cx) {
+			if strings.Contains(o.Key, "ProofOfWorkBits") || strings.HasSuffix(o.Key, "/anchor") {
+				o.Key = "C14/O14.4/" + strings.TrimPrefix(o.Key, "C19/O19.4/")
+				obs = append(obs, o)
+			}
+		}
+		return obs
+	})), Floor: 26,
 		Expl: "From VerifierChip.Verify: an n-bit range check executes on every path on the value stored in FriChallenges.FriPowResponse of the derived challenges, with width expression 64 − <FRI config>.ProofOfWorkBits, and that value depends on the proof's PowWitness; the width check is live in every backend (C06 obligations) and constant widths are aligned (W3). The transcript order (witness observed before the response is squeezed) is C11's obligation. The arithmetic 'width w ⇔ ≥ 64−w leading zeros of a canonical 64-bit value' is argued in DESIGN.md, not checked.",
 		Rule: "one obligation per clause"})
 	registerProp(&propDef{ID: "C12", Rules: withState("C12", func(cx *Ctx) []Obligation { return append(rulesC12(cx), rulesC10(cx)...) }), Floor: 12,
